@@ -341,6 +341,10 @@ val arith : tcfg -> binop -> z -> z -> ('a1, val0) outcome
 
 val binop_val : tcfg -> binop -> val0 -> val0 -> ('a1, val0) outcome
 
+val called_closure : string -> env -> val0 option
+
+val is_addr : val0 -> bool
+
 val both_ptr : val0 -> val0 -> bool
 
 val ptr_cmp_name : binop -> string
